@@ -17,7 +17,20 @@ from formak.ast_tools import (
     SourceFile,
 )
 from formak.exceptions import ModelConstructionError
-from sympy import Symbol, ccode, cse, diff, simplify
+from sympy import (
+    Symbol,
+    ccode,
+    cosh,
+    coth,
+    csch,
+    cse,
+    diff,
+    sech,
+    simplify,
+    sinh,
+    sympify,
+    tanh,
+)
 
 from formak import ast_fragments as fragments
 from formak import common
@@ -96,6 +109,16 @@ class CppCompileResult:
     source_path: Optional[str] = None
 
 
+def _ccode(expr):
+    # sympy prints sech, csch and coth by rewriting the whole expression in terms
+    # of exp, which turns x**2 into exp(2*log(x)); print them as reciprocals
+    expr = sympify(expr)
+    expr = expr.replace(sech, lambda arg: 1 / cosh(arg))
+    expr = expr.replace(csch, lambda arg: 1 / sinh(arg))
+    expr = expr.replace(coth, lambda arg: 1 / tanh(arg))
+    return ccode(expr)
+
+
 class BasicBlock:
     """
     A run of statements without control flow.
@@ -130,13 +153,13 @@ class BasicBlock:
             assert isinstance(target, Symbol)
             if self._config.common_subexpression_elimination:
                 expr = simplify(expr)
-            cc_expr = ccode(expr)
+            cc_expr = _ccode(expr)
             yield MemberDeclaration("double", target, cc_expr)
 
         for target, expr in zip(self._targets, body):
             if self._config.common_subexpression_elimination:
                 expr = simplify(expr)
-            cc_expr = ccode(expr)
+            cc_expr = _ccode(expr)
             yield MemberDeclaration("", target, cc_expr)
 
 
